@@ -80,7 +80,11 @@ def hChemSubsteps : Handler := do
   let dt ← getF; let vdt ← getF
   pure (outList outF (substeps dt vdt 10000 0.0))
 
+def hChemReseed : Handler := do
+  let x ← getF; let u ← getF
+  pure (outF (reseed x u))
+
 def chemHandlers : List (String × Handler) :=
-  [("chem.update", hChemUpdate), ("chem.reflect", hChemReflect), ("chem.substeps", hChemSubsteps)]
+  [("chem.update", hChemUpdate), ("chem.reflect", hChemReflect), ("chem.substeps", hChemSubsteps), ("chem.reseed", hChemReseed)]
 
 end Driver
